@@ -266,7 +266,7 @@ func init() {
 
 	engine.RegisterCheck("C11", func(r *engine.Run) {
 		r.Rule = "ENUM: the full cross product of 5 sources x 5 transforms x 5 sinks x 2 trigger types x 2 job types x 5 error-handler settings (2500 definitions) is offered to the real Scheduler.AddJob; every accepted definition is triggered the way its trigger does (cron: jobrunner-wrapped Run; onchange: Run as the event callback calls it) in a worker process; oracle: no panic leaves Run, the process survives, the run slot and ticket are released, a run result is stored; differential: the same definition with a recording sink, undisturbed and with a second request for the same job arriving during each of the sink's calls (up to the 6th), must give the same outcome, sink calls and deliveries (the refused request is a no-op). SCHED: concurrent run requests on overlapping ids (see parts). distinct = distinct (accept/outcome) digests"
-		r.Assumptions = []string{"a panic leaving job.Run terminates the hub (jobrunner re-panics in the cron goroutine; on-change jobs run in a bare goroutine)", "HTTP-typed sources/sinks/transforms are outside (need a peer)"}
+		r.Assumptions = []string{"a panic leaving job.Run terminates the hub (jobrunner re-panics in the cron goroutine; on-change jobs run in a bare goroutine)", "HTTP-typed sources/sinks/transforms are exercised against a second hub behind a loopback listener (part http-peer), not in the cross product"}
 		cfgs := c11Configs()
 		start := time.Now()
 		pool := &engine.Pool{Args: []string{"worker", "c11"}, Timeout: 120 * time.Second}
@@ -335,5 +335,7 @@ func init() {
 		r.AddPart(map[string]interface{}{"engine": "ENUM", "name": "c11-cross-product", "definitions": len(cfgs), "accepted": accepted, "evaluated": evals, "wall_s": time.Since(start).Seconds()})
 		fmt.Fprintf(os_stderr(), "[c11] %d definitions, %d accepted, %d evaluated (%.1fs)\n", len(cfgs), accepted, evals, time.Since(start).Seconds())
 		c11Sched(r)
+		// HTTP-typed sources, sinks and transforms against a real peer; a run killed while the peer stalls
+		jPeerPart(r, "C11")
 	})
 }
